@@ -644,7 +644,7 @@ func c04ClientScenario(k *core.Case) {
 }
 
 func runC04Wire(c *core.Ctx) {
-	n := c.N(96, 1600)
+	n := c.N(96, 12000)
 	c.Cases("wire", n, func(k *core.Case) {
 		switch k.Idx % 8 {
 		case 0, 1, 2:
